@@ -6,6 +6,10 @@ CHECKS = {
  'C13': dict(level='exploration', ref='3/C13', technique='fuzzing under ASan/UBSan + wait-status/diagnostic-format monitor on direct cc1 executions; every accepted output assembled',
              text='Every cc1 execution of the sanitizer build on the valid corpus, ~230 seeded invalid programs, option-borne texts, nesting cases and tens of thousands of token/byte mutants ended either with assembler-accepted output or with a located diagnostic; any signal, abort, internal error, sanitizer report, unlocated or out-of-range diagnostic, assembler rejection or (re-run-confirmed) hang is a violation keyed by kind + in-repo frames. Sampling of an infinite input space: exploration.',
              note='gcc ASan/UBSan runtime, GNU as; ASan strict_memcmp=0; command-line-borne errors and end-of-file positions accepted as located (DESIGN 3/C13); presumed line numbers after #line not range-checked'),
+
+ 'C17': dict(level='exploration', ref='3/C17', technique='hashmap.c #included into an ASan/UBSan harness: exhaustive small-scope histories + long random histories vs reference model with structural invariant walks; end-to-end #define/#undef/-D/-U histories through chibicc -E vs dict',
+             text='Online checker of the dictionary specification: after every operation the table answer is compared with a reference model and structural invariants (no duplicate live key, used == non-empty slots, an empty slot exists, every live key reachable from its home slot) are walked. The space of put/get/delete histories of length <= 7 over 3 colliding keys is enumerated completely (reported as an exhaustive sub-space); longer histories, table growth and the real macro table are sampled.',
+             note='gcc ASan/UBSan; the harness reads hashmap.c statics but only calls its public functions; model = last write wins'),
 }
 REASON_WIP = 'check not built yet in this session (planned, see DESIGN.md section 3); will be claimed once its monitor is silent on the unchanged tree'
 
